@@ -5,3 +5,8 @@ CHECKS['C05'] = ('model_checking',
   'Every history of Model/AttackerAttachment calls up to the reported depth and deviation budget over a <=3-asset universe is executed on the real code and compared step by step with an abstract reference model (ids, names, links, neighbours, entry points, failing calls change nothing).',
   'Trusted: CPython, python_jsonschema_objects. Bounded: depth/deviation/universe as reported in evidence; nothing claimed above the bound.',
   'DESIGN.md 3/C05')
+CHECKS['C01'] = ('model_checking',
+  'bounded-exhaustive enumeration of (step expression, instance model) pairs executed on the real generator, compared with interval set semantics',
+  'Every statically well-typed step expression up to the operator bound (as generated attack steps of the SEM language family) is evaluated by the real AttackGraph generator on every instance model up to the asset/link bound; each node\'s child set must lie between the reference lower/upper semantics (equal when no * occurs), parents must be the converse, generation must terminate.',
+  'Trusted: CPython, python_jsonschema_objects, the 100-line reference evaluator (self-checked by algebraic laws). Intersection/difference only where pointwise and set-level MAL readings coincide.',
+  'DESIGN.md 3/C01')
